@@ -30,6 +30,7 @@ class Scheduler:
         self.loop = asyncio.new_event_loop()
         self.pending = []
         self.seq = 0
+        self._fire = []
         self.deviations = deviations
         self.max_steps = max_steps
         self.steps = 0
@@ -37,6 +38,10 @@ class Scheduler:
         self.anytime = []            # external events that may be injected as a deviation: (label, fn, once)
         self.choice_n = 0
         self.filter = None           # optional: callable(gate) -> bool, which gates count as deviation candidates
+        self.frozen = []             # gates postponed by a deviation until nothing else can run
+        self.triggers = []           # [label_prefix, nth, fn]: fn() right after the nth gate with that label opens
+        self.window = None           # steps after the first deviation within which further ones may happen
+        self.first_dev_step = None
 
     # -- called from the stubs -----------------------------------------------------------------
     async def wait(self, label, kind='call', action=None):
@@ -54,9 +59,26 @@ class Scheduler:
             raise
 
     def job(self, label):
-        '''run_in_thread replacement.'''
+        '''run_in_thread replacement.  Two gates per job: the job runs in its thread (executed by the
+        scheduler when the first gate opens), and its result is delivered to the event loop when the
+        second one opens - other callbacks may run in between, as with a real thread.'''
         async def run_in_thread(func, *args):
-            return await self.wait(f'{label}:{getattr(func, "__name__", "job")}', 'job', lambda: func(*args))
+            name = f'{label}:{getattr(func, "__name__", "job")}'
+            box = {}
+
+            def run():
+                try:
+                    box['r'] = func(*args)
+                except Exception as e:   # noqa - delivered at the second gate
+                    box['e'] = e
+            try:
+                await self.wait(name, 'job', run)
+            except asyncio.CancelledError:
+                raise
+            await self.wait(name + ':result', 'deliver', None)
+            if 'e' in box:
+                raise box['e']
+            return box.get('r')
         return run_in_thread
 
     def sleeper(self, label):
@@ -77,8 +99,16 @@ class Scheduler:
 
     def open(self, g):
         self.pending.remove(g)
+        if g in self.frozen:
+            self.frozen.remove(g)
         g.done = True
         self.trace.append(g.label + (' (orphan)' if g.orphan else ''))
+        for tr in list(self.triggers):
+            if g.label.startswith(tr[0]):
+                tr[1] -= 1
+                if tr[1] <= 0:
+                    self.triggers.remove(tr)
+                    self._fire.append(tr[2])
         try:
             res = g.action() if g.action else None
         except (symx.Abort, symx.Violation):
@@ -95,20 +125,33 @@ class Scheduler:
             g.fut.set_result(res)
 
     def candidates(self):
-        calls = [g for g in self.pending if g.kind != 'time']
+        calls = [g for g in self.pending if g.kind != 'time' and g not in self.frozen]
+        # results of finished thread jobs are delivered first by default (FIFO among them)
+        calls.sort(key=lambda g: (0 if g.kind == 'deliver' else 1, g.seq))
         times = [g for g in self.pending if g.kind == 'time']
         return calls, times
 
+    def _after_open(self):
+        self.settle()
+        while self._fire:
+            fn = self._fire.pop(0)
+            fn()
+            self.settle()
+
     def step(self, allow_time=True):
-        '''Open one gate.  Returns False when nothing can be opened.'''
+        """Open one gate.  Returns False when nothing can be opened."""
         self.settle()
         calls, times = self.candidates()
         default = calls[0] if calls else (times[0] if (times and allow_time) else None)
         options = []
-        if self.deviations > 0:
-            for g in calls[1:] + (times if calls else times[1:]):
-                if self.filter is None or self.filter(g):
-                    options.append(('gate', g))
+        may_deviate = self.deviations > 0 and (
+            self.window is None or self.first_dev_step is None or self.steps - self.first_dev_step <= self.window)
+        if may_deviate:
+            for g in calls:
+                if (self.filter is None or self.filter(g)) and (len(calls) > 1 or times):
+                    options.append(('freeze', g))
+            for g in (times if calls else times[1:]):
+                options.append(('gate', g))
             for ev in self.anytime:
                 options.append(('event', ev))
         if default is None and not options:
@@ -127,8 +170,13 @@ class Scheduler:
             self.open(default)
         else:
             self.deviations -= 1
+            if self.first_dev_step is None:
+                self.first_dev_step = self.steps
             kind, what = options[pick - 1]
-            if kind == 'gate':
+            if kind == 'freeze':
+                self.frozen.append(what)
+                self.trace.append('postpone:' + what.label)
+            elif kind == 'gate':
                 self.open(what)
             else:
                 label, fn, once = what
@@ -136,7 +184,7 @@ class Scheduler:
                     self.anytime.remove(what)
                 self.trace.append('event:' + label)
                 fn()
-        self.settle()
+        self._after_open()
         return True
 
     def run_until(self, pred, allow_time=True, limit=300):
@@ -149,7 +197,15 @@ class Scheduler:
         raise RuntimeError('run_until: bound exceeded: ' + ' | '.join(self.trace[-12:]))
 
     def only_timers_pending(self):
-        return all(g.kind == 'time' for g in self.pending)
+        return all(g.kind == 'time' or g in self.frozen for g in self.pending)
+
+    def thaw(self):
+        '''The postponed gates become eligible again (FIFO).'''
+        self.frozen = []
+
+    def open_timer(self, g):
+        self.open(g)
+        self._after_open()
 
     def drain_calls(self):
         '''FIFO until only timers (sleeps) are parked.'''
